@@ -522,6 +522,31 @@ def check_property_(pid, tier, seed):
                                   'rustc': api[o['decl']][:3]}
             violations.append((write_replay(pid, payload), ''))
             continue
+        if pid == 'C17' and o['label'] == 'surface:sigs' and d['kind'] == 'bitfield':
+            # the method list of the real expansion against what the access specifiers call for: a surplus or missing method is
+            # itself the failing input
+            real = set()
+            for it in ctx.xl.get(o['decl'], {}).get('items', []):
+                if it.get('kind') == 'impl' and it.get('self_ty') == d['name'] and it.get('trait') is None:
+                    real |= set(f['name'] for f in it['items'] if f.get('kind') == 'fn')
+            want = {'new_with_raw_value', 'raw_value'}
+            if d.get('default') is not None:
+                want.add('new')
+            for f in d['fields']:
+                nm = f['name'].replace('r#', '')
+                if 'r' in f['acc']:
+                    want.add(nm)
+                if 'w' in f['acc']:
+                    want |= {'with_' + nm, 'set_' + nm}
+            surplus = sorted(real - want - {'builder'})
+            missing = sorted(want - real)
+            if surplus or missing:
+                payload['witness'] = {'what': 'the generated impl block defines %s and lacks %s compared with what the access specifiers '
+                                              'of the declaration call for' % (surplus or 'nothing extra', missing or 'nothing'),
+                                      'surplus_methods': surplus, 'missing_methods': missing}
+                violations.append((write_replay(pid, payload), ''))
+                found += 1
+                continue
         if pid == 'C18' and o['label'] in ('surface:no_unsafe', 'surface:paths', 'surface:no_other_items', 'enum:surface'):
             xj = ctx.xl.get(o['decl'], {})
             payload['witness'] = {'what': 'the expansion of this declaration is the witness: ' + (
